@@ -27,6 +27,7 @@ type c16Desc struct {
 	Trigger  int         `json:"trigger_after_frames"`
 	WriteMax int         `json:"transport_write_max"`
 	Perturb  int32       `json:"perturb"`
+	Stall    bool        `json:"peer_stalls_around_the_close,omitempty"`
 	Seed     uint64      `json:"seed"`
 }
 
@@ -73,6 +74,7 @@ func c16Gen(tier string, seed int64) []fw.Case {
 					d.Trigger = 1 + rng.Intn(40)
 					d.WriteMax = []int{0, 0, 1, 3, 64}[rng.Intn(5)]
 					d.Perturb = int32(rng.Intn(3))
+					d.Stall = rng.Intn(2) == 0
 					dd := d
 					cases = append(cases, fw.Case{Name: fmt.Sprintf("%s/%s/%s/%s", role, cause, echo, paramsKey(d.Params)), Desc: dd, Run: func(r *fw.R) { c16Run(r, dd) }})
 				}
@@ -85,7 +87,11 @@ func c16Gen(tier string, seed int64) []fw.Case {
 func c16Run(r *fw.R, d c16Desc) {
 	r.SetSample(d)
 	setPerturb(d.Seed, d.Perturb)
-	c, _, peerEnd, err := libConn(d.Role, d.Params, 64, xport.Plan{Seed: d.Seed, WriteMax: d.WriteMax, Yield: true}, xport.Plan{})
+	lib2peer := xport.Plan{Seed: d.Seed, WriteMax: d.WriteMax, Yield: true}
+	if d.Stall {
+		lib2peer.Capacity = 700 // a stalled peer blocks the library's writers at once
+	}
+	c, _, peerEnd, err := libConn(d.Role, d.Params, 64, lib2peer, xport.Plan{})
 	if err != nil {
 		r.Violate("C16/attach-failed", err.Error(), "")
 		return
@@ -96,9 +102,7 @@ func c16Run(r *fw.R, d c16Desc) {
 		c.SetReadLimit(100)
 	}
 	rng := fw.NewRand(d.Seed)
-	peer := newRawPeer(peerEnd, d.Role, d.Params, d.Seed)
-	peer.AutoPong = true
-
+	var impatientPings, gaveUpQueued atomic.Int64
 	ctx, cancel := context.WithTimeout(context.Background(), 40*time.Second)
 	defer cancel()
 
@@ -107,9 +111,44 @@ func c16Run(r *fw.R, d c16Desc) {
 	var runningAtClose atomic.Int32
 	var running atomic.Int32
 	var frames atomic.Int64
+	var peer *RawPeer
 	trigger := func() {
 		if fired.Swap(true) {
 			return
+		}
+		if d.Stall {
+			// the peer stops reading for a while around the close: the frame being written at that moment
+			// (a data frame, or the Close frame itself) is stuck in the transport, and callers with short
+			// contexts give up while queued behind it
+			peer.Paused.Store(true)
+			stopImp := make(chan struct{})
+			go func() {
+				time.Sleep(100 * time.Millisecond)
+				peer.Paused.Store(false)
+				close(stopImp)
+			}()
+			time.Sleep(15 * time.Millisecond)
+			for i := 0; i < 3; i++ {
+				go func() {
+					for n := 0; ; n++ {
+						select {
+						case <-stopImp:
+							return
+						default:
+						}
+						ictx, ic := context.WithTimeout(context.Background(), time.Duration(1+n%4)*time.Millisecond)
+						err := c.Ping(ictx)
+						ic()
+						impatientPings.Add(1)
+						if err != nil && strings.Contains(err.Error(), "acquire lock") {
+							gaveUpQueued.Add(1)
+						}
+						if err != nil && !strings.Contains(err.Error(), "acquire lock") {
+							return // written and timed out waiting for the pong (closes the connection), or closed
+						}
+					}
+				}()
+			}
 		}
 		switch d.Cause {
 		case "local-close":
@@ -155,6 +194,8 @@ func c16Run(r *fw.R, d c16Desc) {
 		}
 	}
 	stopNoise := make(chan struct{})
+	peer = newRawPeer(peerEnd, d.Role, d.Params, d.Seed)
+	peer.AutoPong = true
 	peer.OnFrame = func(f wire.Frame) {
 		n := frames.Add(1)
 		if int(n) >= d.Trigger {
@@ -338,6 +379,7 @@ func c16Run(r *fw.R, d c16Desc) {
 	if runningAtClose.Load() > 0 {
 		r.Count("traces_with_writers_running_at_close", 1)
 	}
+	r.Count("callers_gave_up_while_queued_behind_a_stalled_frame", gaveUpQueued.Load())
 	r.Count("writes_ok", writesOK.Load())
 	r.Count("writes_refused_after_close", writesFailedAfterClose.Load())
 }
